@@ -32,6 +32,7 @@ type LoopContract struct {
 	Unroll       int
 	UnrollAssume bool // bounded mode: no unwinding assertion
 	Modifies     []Clause
+	ModNothing   bool
 }
 
 type GhostBind struct {
@@ -68,6 +69,10 @@ type FuncContract struct {
 	Bounded   string // non-empty: this unit is a bounded check with the stated bound
 	Establishes []string
 	ThoroughOnly bool
+	View         string
+	Views        []string          // alternative (abstract) contracts of callees this unit is verified against
+	AtCall       map[string][]Clause // callee name -> conditions that must hold in the caller right before each call
+	AllowExtern  []string
 	CallersInline bool     // at call sites the body is inlined (exact state) and the listed ensures are assumed as facts
 	InlineFacts   []string // labels of the ensures clauses assumed after inlining
 	Opaque    []string
@@ -148,7 +153,7 @@ func newContracts() *Contracts {
 		Ghosts: map[string]*GhostVar{}, Externs: map[string]*FuncContract{}, Writers: map[string][]string{}, Scenarios: map[string]*Scenario{}, ImportsByPkg: map[string][]string{}}
 }
 
-var kwRe = regexp.MustCompile(`^(import|define|ghost|func|extern|lemma|axiom|fact|scenario|do|establishes|writers|callers-inline|thorough-only|props|requires|ensures|modifies|nopanic|exact-conversions|trusted|inline|split|loop|assert|use|hyp|concl|timeout|bounded|opaque)\b`)
+var kwRe = regexp.MustCompile(`^(import|define|ghost|func|extern|lemma|axiom|fact|scenario|do|establishes|writers|callers-inline|thorough-only|views|at-call|allow-extern|props|requires|ensures|modifies|nopanic|exact-conversions|trusted|inline|split|loop|assert|use|hyp|concl|timeout|bounded|opaque)\b`)
 
 func parseExprSrc(src string) (ast.Expr, error) {
 	// ==> is written as implies(); allow `a ==> b` at top level as sugar, right-assoc
@@ -305,7 +310,17 @@ func (cs *Contracts) LoadContractFile(path string, pkgShort string) error {
 			cur = &FuncContract{Pkg: pkgShort, Loops: map[int]*LoopContract{}, File: path, Line: r.line}
 			curLemma = nil
 			curLoop = nil
-			cur.Key = normalizeFuncName(r.text, pkgShort)
+			viewName := ""
+			ftxt := r.text
+			if i := strings.Index(ftxt, " view "); i >= 0 {
+				viewName = strings.TrimSpace(ftxt[i+6:])
+				ftxt = strings.TrimSpace(ftxt[:i])
+			}
+			cur.Key = normalizeFuncName(ftxt, pkgShort)
+			if viewName != "" {
+				cur.Key += "@" + viewName
+				cur.View = viewName
+			}
 			if r.kw == "extern" {
 				cur.Trusted = "extern"
 				cs.Externs[cur.Key] = cur
@@ -352,6 +367,24 @@ func (cs *Contracts) LoadContractFile(path string, pkgShort string) error {
 			}
 			st.Call = c
 			curScenario.Steps = append(curScenario.Steps, st)
+		case "views":
+			cur.Views = append(cur.Views, strings.Fields(r.text)...)
+		case "allow-extern":
+			cur.AllowExtern = append(cur.AllowExtern, strings.Fields(r.text)...)
+		case "at-call":
+			// at-call CALLEE requires EXPR
+			f := strings.SplitN(r.text, " requires ", 2)
+			if len(f) != 2 {
+				return fmt.Errorf("%s:%d: at-call CALLEE requires EXPR", path, r.line)
+			}
+			c, err := mkClause(rawClause{"at-call", strings.TrimSpace(f[1]), r.line})
+			if err != nil {
+				return err
+			}
+			if cur.AtCall == nil {
+				cur.AtCall = map[string][]Clause{}
+			}
+			cur.AtCall[strings.TrimSpace(f[0])] = append(cur.AtCall[strings.TrimSpace(f[0])], c)
 		case "thorough-only":
 			if cur != nil {
 				cur.ThoroughOnly = true
@@ -556,6 +589,10 @@ func (cs *Contracts) LoadContractFile(path string, pkgShort string) error {
 					cs.Scan = append(cs.Scan, fmt.Sprintf("%s:%d: %s loop %d unroll %d assume (bounded)", filepath.Base(path), r.line, cur.Key, n, lc.Unroll))
 				}
 			case strings.HasPrefix(rest, "modifies"):
+				if strings.TrimSpace(rest[len("modifies"):]) == "nothing" {
+					lc.ModNothing = true
+					break
+				}
 				for _, part := range splitTop(strings.TrimSpace(rest[len("modifies"):]), ',') {
 					c, err := mkClause(rawClause{"modifies", part, r.line})
 					if err != nil {
